@@ -152,7 +152,9 @@ def _pyx_role(repo, f, n, name):
         if isinstance(p, ast.If) and 'CheckExact' in norm(p.test):
             return True
         # fall-through of a class dispatch over event objects
-        if isinstance(p, ast.If) and n in p.orelse and 'event_class is' in norm(p.test):
+        if isinstance(p, ast.If) and n in p.orelse and isinstance(p.test, ast.Compare) and len(p.test.ops) == 1 \
+                and isinstance(p.test.ops[0], ast.Is) and isinstance(p.test.comparators[0], ast.Name) \
+                and p.test.comparators[0].id.endswith('Event'):
             return True
         return False
     if name == 'ValueError':
